@@ -57,7 +57,6 @@ theorem createNew_ref (s0 s s' : State) (hInv : Inv s) (hfk : FkOk s.db) (row : 
     (hs0 : s0.db = s.db ∧ s0.store = s.store ∧ s0.nextId = s.nextId + 1 ∧ s0.nextRid = s.nextRid + 1)
     (res : List Upd × Nat) (h : createNew E row.id lit (FSet.new flags) s.nextId rid s0 = .ok (res, s')) :
     Inv s' ∧ abs s' = MailboxRef.refAppend (abs s) row.name flags lit.bytes ∧ FkOk s'.db ∧
-      (∀ U, FlagsWithin U s.db → FlagsIn U flags → FlagsWithin U s'.db) ∧
       s'.nextRid = s.nextRid + 1 ∧ ∃ mrow, mrow.remoteId = rid ∧ s'.db.messages = s.db.messages ++ [mrow] := by
   obtain ⟨hs0db, hs0st, hs0id, hs0rid⟩ := hs0
   unfold createNew at h
@@ -134,7 +133,7 @@ theorem createNew_ref (s0 s s' : State) (hInv : Inv s) (hfk : FkOk s.db) (row : 
         rintro rfl
         exact hd ((FSet.has_iff _ _).mpr hx)
       · exact fun hx => hx.1
-  refine ⟨?_, ?_, ?_, ?_, hnrid, ⟨mrow, hmrid, hmsg⟩⟩
+  refine ⟨?_, ?_, ?_, hnrid, ⟨mrow, hmrid, hmsg⟩⟩
   · -- Inv
     refine ⟨by show (List.map _ (proj s'.db).mailboxes).Nodup; simp only [proj]; rw [hmb]; exact hInv.names,
             by show (List.map _ (proj s'.db).mailboxes).Nodup; simp only [proj]; rw [hmb]; exact hInv.ids, ?_⟩
@@ -213,16 +212,5 @@ theorem createNew_ref (s0 s s' : State) (hInv : Inv s) (hfk : FkOk s.db) (row : 
     · obtain ⟨r, hr, hid⟩ := hfk p h5
       exact ⟨r, List.mem_append_left _ hr, hid⟩
     · exact ⟨mrow, List.mem_append_right _ (List.mem_singleton.mpr rfl), by rw [hmid, h5]⟩
-  · -- FlagsWithin
-    intro U hU hfU p hp
-    rcases (hflg p).mp hp with h5 | ⟨_, h5⟩
-    · exact hU p h5
-    · by_cases hd : (FSet.new flags).has keyDeleted = true
-      · simp only [hd, if_true] at h5
-        exact remaining_sub flags U hfU _ h5
-      · simp only [hd, Bool.false_eq_true, if_false] at h5
-        apply hfU _ (FSet.new_sub _ _ h5)
-        intro hk
-        exact hd ((FSet.has_iff _ _).mpr (List.mem_map.mpr ⟨_, h5, hk⟩))
 
 end Gluon.C03
